@@ -341,3 +341,11 @@ func cloneValue(v *Value) *Value {
 	}
 	return &out
 }
+
+type jsonRaw = json.RawMessage
+
+func mustUnmarshal(b []byte, v interface{}) {
+	if err := json.Unmarshal(b, v); err != nil {
+		panic(fmt.Sprintf("bad model output %s: %v", b, err))
+	}
+}
